@@ -222,6 +222,8 @@ def run_case(case):
                 base_at = loop['at'] if loop and loop['via'] == 'objective_base' else None
                 fl = cfg['objective'].get('faults') or {}
                 rec['initial_ids'] = sorted({g.descriptive_id for g in (opt.initial_graphs or [])})
+                rec['initial_graphs'] = [{'id': g.descriptive_id, 'n_nodes': len(g.nodes), 'labels': sorted({str(x) for x in g.nodes})}
+                                         for g in (opt.initial_graphs or [])]
                 if base_at is not None or fl.get('only_size') or fl.get('only_initial'):
                     key = next(iter(objective.quality_metrics))
                     objective.quality_metrics[key] = Metric7(objective.quality_metrics[key], base_at, fired)
@@ -367,6 +369,22 @@ def observed_exn(rec, loop):
     if tname == 'ValueError' and 'can not be evaluated again' in msg:
         return 'EValue'
     return 'EUnknown'
+
+
+def class_fault(faults, g, initial_ids):
+    """the fault a graph meets because of what it IS (size / label / identity), None when it evaluates"""
+    f = faults or {}
+    if f.get('by_class') and g['n_nodes'] % f['by_class'][0] == f['by_class'][1]:
+        return f['by_class'][2]
+    if f.get('by_label') and f['by_label'][0] in g['labels']:
+        return f['by_label'][1]
+    if f.get('by_size_over') and g['n_nodes'] > f['by_size_over'][0]:
+        return f['by_size_over'][1]
+    if f.get('only_size') and g['n_nodes'] != f['only_size'][0]:
+        return f['only_size'][1]
+    if f.get('only_initial') and g['id'] not in initial_ids:
+        return f['only_initial']
+    return None
 
 
 class Builder:
@@ -533,6 +551,10 @@ class Builder:
         rec = self.rec
         log = rec['log']
         ok = set()
+        if self.cfg.get('n_jobs', 1) > 1:
+            # no objective log from worker processes: failure is a property of the graph (class faults), which
+            # c_bad_class decides for every recorded individual together with the validity of its fitness
+            return set(self.ids)
         for b in rec['batches']:
             te = [u for u, v in zip(b['in'], b['in_valid']) if not v]
             if b['surrogate']:
@@ -550,6 +572,10 @@ class Builder:
     def initial_ok(self):
         rec = self.rec
         log = rec['log']
+        if self.cfg.get('n_jobs', 1) > 1:
+            # worker processes: the objective log stays in the workers; class faults only (see gen_cases)
+            faults = self.cfg['objective'].get('faults')
+            return any(class_fault(faults, g, rec.get('initial_ids', [])) is None for g in rec.get('initial_graphs', []))
         if self.populational and rec['pops']:
             n0 = rec['pops'][0]['n_log']
         elif rec['batches']:
@@ -597,6 +623,9 @@ class Builder:
         if only:
             bad = sorted(set(bad) | set(n(u) for u, r in rec['individuals'].items()
                                         if r['n_nodes'] != only[0] and not r['surrogate']))
+        flt = self.cfg['objective'].get('faults') or {}
+        bad = sorted(set(bad) | set(n(u) for u, r in rec['individuals'].items()
+                                    if not r['surrogate'] and class_fault(flt, r, rec.get('initial_ids', [])) is not None))
         invalid = sorted(n(u) for u, r in rec['individuals'].items() if not r['valid'])
         bad = sorted(set(bad) | set(invalid))      # an individual recorded with an invalid fitness
         exn = observed_exn(rec, self.loop)
@@ -803,6 +832,39 @@ def gen_cases(ctx):
                     cfg['num_of_generations'] = max(cfg['num_of_generations'], 8)
                 cases.append({'group': 'metric:passthrough', 'cfg': cfg})
                 i += 1
+    # A6. real worker processes (n_jobs=2, parallel dispatcher: the objective is pickled into joblib workers) with
+    # RAISING metrics; class faults only, because the objective log stays in the workers
+    wp = [('evo', {'by_class': [2, 0, 'raise']}), ('pop_random_mutation', {'by_size_over': [3, 'raise']})]
+    if not quick:
+        wp += [('surrogate', {'by_class': [3, 1, 'raise']}), ('evo', {'only_initial': 'raise'}), ('evo', {'by_size_over': [4, 'raise']}),
+               ('pop_random_mutation', {'by_class': [2, 1, 'raise']})]
+    for opt, f in wp:
+        cfg = base_cfg(rng, opt, i)
+        cfg.update({'parallelization_mode': 'populational', 'n_jobs': 2, 'num_of_generations': 2, 'pop_size': rng.choice([3, 4]),
+                    'initial': 'three', 'diversity_check': -1})
+        cfg['objective'] = {'metrics': [rng.choice(['size', 'balance'])], 'multi': False, 'faults': f}
+        cases.append({'group': 'metric:worker_processes', 'cfg': cfg})
+        i += 1
+    # A7. decremental regularization (sub-graphs of 'fitted' members are evaluated and offered to selection) with
+    # steady-state / parameter-free inheritance and metrics that fail on sub-graphs
+    if hasattr(optrun, 'regularization_config'):
+        regs = [('steady_state', {'only_initial': 'raise'}), ('steady_state', {'by_class': [2, 0, 'nan']}),
+                ('parameter_free', {'by_class': [2, 1, 'none']}), ('steady_state', {'every': 2})]
+        if not quick:
+            regs = [(sch, f) for sch in ('steady_state', 'parameter_free', 'generational')
+                    for f in ({'only_initial': 'raise'}, {'only_initial': 'nan'}, {'by_class': [2, 0, 'nan']}, {'by_class': [2, 1, 'raise']},
+                              {'by_class': [3, 1, 'none']}, {'every': 2}, {'every': 3})]
+        for sch, f in regs:
+            cfg = optrun.regularization_config(rng)
+            cfg.pop('rule', None)
+            cfg.update({'scheme': sch, 'initial': rng.choice(['big', 'big', 'mixed_sizes', 'chain']), 'show_progress': bool(i % 2),
+                        'timeout_min': 5.0, 'diversity_check': -1,
+                        'selection': ['tournament']})   # spea2 + failed sub-graphs: TypeError on the unchanged tree (reported)
+            if 'every' in f:
+                f = {'by_index': {str(x): KINDS[i % 3] for x in range(1, 200, f['every'])}}
+            cfg['objective'] = {'metrics': [rng.choice(['size', 'balance', 'label'])], 'multi': False, 'faults': f}
+            cases.append({'group': 'metric:regularization', 'cfg': cfg})
+            i += 1
     # B. persistence faults (populational classes dump; the random-search family never does)
     ios = [{'mode': 'ok'}, {'mode': 'block_from', 'n': 0}, {'mode': 'block_from', 'n': 1}, {'mode': 'block_from', 'n': 2},
            {'mode': 'save_patch', 'n': 0}, {'mode': 'save_patch', 'n': 3}, {'mode': 'save_patch', 'n': 7},
